@@ -98,6 +98,7 @@ func genC12(t *rapid.T) C12Case {
 		lim.maxLeaves, lim.maxBlocks, lim.maxAdd = 160, 14, 20
 	}
 	c := C12Case{Cfg: genMapCfg(t, "cfg")}
+	c.Cfg.Direct = false
 	partial := !c.Cfg.Full
 	g := newWgen(partial)
 	ops := []string{"block", "block", "block", "block", "undo", "verify", "reread"}
@@ -341,6 +342,7 @@ func runC12(c C12Case) *Result {
 	if c.Cfg.Kind != "map" {
 		return res.failf("case error: C12 is about the map forest")
 	}
+	c.Cfg.Direct = false // Direct mode peeks into the exported cache without the lock: fine sequentially, not here
 	c.Steps = c12Normalize(c.Cfg, c.Steps)
 	n := len(c.Steps)
 	states, ce, oe := c12States(c)
